@@ -285,6 +285,7 @@ func runCase(c Case) vlib.Result {
 	type got struct{ w, seq int }
 	var rmu sync.Mutex
 	var received []got
+	var framesSeen int64
 	var wireErr string
 	readerDone := make(chan struct{})
 	go func() {
@@ -330,6 +331,7 @@ func runCase(c Case) vlib.Result {
 				return
 			}
 			asm = append(asm, f.Payload...)
+			atomic.AddInt64(&framesSeen, 1)
 			if f.Fin {
 				inMsg = false
 				if len(asm) < frameHdr {
@@ -383,10 +385,16 @@ func runCase(c Case) vlib.Result {
 	if c.WriteFrom == "first-message" && sent == 0 {
 		// writers never started
 	} else if c.Writers > 0 {
-		select {
-		case <-s.wdone:
-		case <-time.After(20 * time.Second):
-			res.Err = fmt.Errorf("the server-side writers did not finish within 20 s (a WriteMessage call is stuck)")
+		wdone := func() bool {
+			select {
+			case <-s.wdone:
+				return true
+			default:
+				return false
+			}
+		}
+		if !vlib.WaitProgress(20*time.Second, wdone, func() int64 { return atomic.LoadInt64(&framesSeen) }) {
+			res.Err = fmt.Errorf("the server-side writers did not finish and no frame has reached the client for 20 s (a WriteMessage call is stuck)")
 			return res
 		}
 	}
@@ -399,11 +407,12 @@ func runCase(c Case) vlib.Result {
 			}
 		}
 	}
-	vlib.WaitUntil(10*time.Second, func() bool {
+	// (a slow transfer is not a lost message: give up only when no frame has arrived for 10 s)
+	vlib.WaitProgress(10*time.Second, func() bool {
 		rmu.Lock()
 		defer rmu.Unlock()
 		return len(received) >= expectOut || wireErr != ""
-	})
+	}, func() int64 { return atomic.LoadInt64(&framesSeen) })
 	// the client sees the 101 response before the server side has necessarily run its open callback
 	// (it runs after the response was written): the ending below must not overtake it
 	vlib.WaitUntil(5*time.Second, func() bool {
@@ -662,6 +671,14 @@ func gen(t *rapid.T) Case {
 	}
 	if vlib.YieldAvailable {
 		c.YieldPerMille = rapid.SampledFrom([]int{0, 0, 20, 100, 300}).Draw(t, "yield")
+		// affordable: heavy perturbation of a session with several hundred thousand frames takes minutes
+		frames := 0
+		for _, n := range c.OutSizes {
+			frames += n/c.FrameLimit + 1
+		}
+		if len(c.OutSizes) > 0 && frames/len(c.OutSizes)*c.Writers*c.PerWriter > 40000 && c.YieldPerMille > 20 {
+			c.YieldPerMille = 20
+		}
 	}
 	return c
 }
